@@ -4,6 +4,8 @@ package app
 
 import (
 	"fmt"
+	"io"
+	"net/http/httptest"
 	"os"
 	"strconv"
 	"strings"
@@ -22,7 +24,7 @@ import (
 // ---------------------------------------------------------------------------------------
 
 type C09Step struct {
-	K       string `json:"k"` // send | replay | resign | badsig | adv | advto | flood | reload | burst
+	K       string `json:"k"` // send | inflight | replay | resign | badsig | adv | advto | flood | reload | burst
 	Ref     int    `json:"ref,omitempty"`
 	TsOffS  int    `json:"ts_off_s,omitempty"`
 	Ms      int    `json:"ms,omitempty"`
@@ -53,6 +55,8 @@ type nonceFirst struct {
 	// (legitimately, this is the known finding) once any request was processed after that instant.
 	keepUntil time.Time
 	forgotten bool
+	// raisedInFlight: the request was in flight across a reload that raised the tolerance
+	raisedInFlight bool
 }
 
 func c09Text(r AuthRoute, variant string) string {
@@ -75,7 +79,7 @@ func genC09Case() *rapid.Generator[C09Case] {
 		}
 		tol := int(c.Route.tol() / time.Second)
 		stepGen := rapid.Custom(func(t *rapid.T) C09Step {
-			k := rapid.SampledFrom([]string{"send", "send", "send", "replay", "replay", "replay", "replay", "resign", "badsig", "adv", "adv", "advto", "advto", "flood", "reload", "reload", "reload", "burst"}).Draw(t, "k")
+			k := rapid.SampledFrom([]string{"send", "send", "send", "inflight", "inflight", "replay", "replay", "replay", "replay", "resign", "badsig", "adv", "adv", "advto", "advto", "flood", "reload", "reload", "reload", "burst"}).Draw(t, "k")
 			s := C09Step{K: k}
 			switch k {
 			case "send", "burst":
@@ -83,6 +87,11 @@ func genC09Case() *rapid.Generator[C09Case] {
 				if k == "burst" {
 					s.G = rapid.SampledFrom([]int{2, 4, 8, 16}).Draw(t, "g")
 				}
+			case "inflight":
+				// a request planned before a reload and authenticated after it: the reload happens
+				// while the request body is still being read
+				s.TsOffS = rapid.SampledFrom([]int{0, 0, -tol + 1, tol - 1, -1, 1}).Draw(t, "ts_off")
+				s.Mode = rapid.SampledFrom([]string{"same", "touch", "tol-down", "tol-up", "tol-up", "tol-up3", "secret"}).Draw(t, "mode")
 			case "replay", "badsig":
 				s.Ref = rapid.IntRange(0, 5).Draw(t, "ref")
 			case "resign":
@@ -95,6 +104,7 @@ func genC09Case() *rapid.Generator[C09Case] {
 				s.DeltaNs = rapid.SampledFrom([]int{-1000000000, -1, 0, 0, 1, 1000000000}).Draw(t, "delta")
 			case "flood":
 				s.N = rapid.SampledFrom([]int{1, 10, 100, 100, 1000, 1500}).Draw(t, "n")
+				s.Mode = rapid.SampledFrom([]string{"valid", "valid", "badsig"}).Draw(t, "mode")
 			case "reload":
 				s.Mode = rapid.SampledFrom([]string{"same", "touch", "tol-down", "tol-up", "tol-up", "tol-up3", "secret"}).Draw(t, "mode")
 			}
@@ -133,9 +143,28 @@ func runC09(c C09Case, tolerate bool) *fOutcome {
 			}
 		}
 	}
+	var midRequest func() // when set, runs once while the next request's body is being read
 	issue := func(step int, req FReq, ts int64, nonce string, record bool) (*verifkit.Failure, bool) {
 		markForgotten(nonce)
-		rec := serve(w.ingress, req)
+		var rec *httptest.ResponseRecorder
+		if midRequest != nil {
+			fire, fired := midRequest, false
+			midRequest = nil
+			hr := req.build()
+			hr.Body = io.NopCloser(&triggerReader{data: req.Body, fire: func() {
+				if !fired {
+					fired = true
+					fire()
+				}
+			}})
+			rec = httptest.NewRecorder()
+			w.ingress.ServeHTTP(rec, hr)
+			if fired {
+				out.Labels["reload-inside-request"] = true
+			}
+		} else {
+			rec = serve(w.ingress, req)
+		}
 		ok := rec.Code == 202
 		if record {
 			sent = append(sent, sentReq{req: req, ts: ts, nonce: nonce, accepted: ok})
@@ -152,6 +181,8 @@ func runC09(c C09Case, tolerate bool) *fOutcome {
 					nonce, now.Format(time.RFC3339Nano), f.at.Format(time.RFC3339Nano), f.ts, f.tol, ts, curTol)
 				// narrow signatures of the two defects known from reading the code
 				switch {
+				case f.raisedInFlight && now.After(f.keepUntil):
+					fl.Sig = "nonce-inflight-across-tolerance-raise"
 				case out.Labels["reload-between"] && now.Before(time.Unix(f.ts, 0).Add(f.tol)):
 					fl.Sig = "nonce-cache-reset-on-reload"
 				case now.Equal(time.Unix(f.ts, 0).Add(f.tol)):
@@ -179,6 +210,50 @@ func runC09(c C09Case, tolerate bool) *fOutcome {
 		return true
 	}
 
+	// doReload writes the next configuration and reloads; the harness failure, if any, is returned
+	doReload := func(i int, mode string) *verifkit.Failure {
+		nr := route
+		switch mode {
+		case "touch":
+			variant = "touch"
+		case "tol-down":
+			if curTol > time.Second {
+				nr.TolS = int(curTol/time.Second) / 2
+				if nr.TolS == 0 {
+					nr.TolS = 1
+				}
+			}
+		case "tol-up", "tol-up3":
+			nr.TolS = int(curTol/time.Second) * 2
+			if mode == "tol-up3" {
+				nr.TolS = int(curTol/time.Second) * 3
+			}
+			out.Labels["tolerance-raised"] = true
+		case "secret":
+			nr.Secrets = append(append([]string(nil), nr.Secrets...), "k-two")
+		}
+		route = nr
+		routes = []AuthRoute{route}
+		if err := os.WriteFile(w.cfgPath, []byte(c09Text(route, variant)), 0o600); err != nil {
+			return ffail("HARNESS", "write-config", i, "%v", err)
+		}
+		if !w.reload() {
+			return ffail("HARNESS", "reload-failed", i, "reload of a valid config failed")
+		}
+		if nt := route.tol(); nt > curTol {
+			for k, f := range first {
+				if !f.forgotten {
+					f.keepUntil = f.keepUntil.Add(nt - curTol)
+					first[k] = f
+				}
+			}
+		}
+		curTol = route.tol()
+		out.Labels["reload-between"] = true
+		out.Labels["reload-"+mode] = true
+		return nil
+	}
+
 	for i, s := range c.Steps {
 		now := w.clk.Now()
 		switch s.K {
@@ -198,7 +273,7 @@ func runC09(c C09Case, tolerate bool) *fOutcome {
 			o := sent[s.Ref%len(sent)]
 			if o.accepted {
 				out.Labels["replay-of-accepted"] = true
-				if out.Labels["reload-between"] || out.Labels["boundary-instant"] || out.Labels["flood>=1000"] {
+				if out.Labels["reload-between"] || out.Labels["boundary-instant"] || out.Labels["flood>=1000"] || out.Labels["inflight-across-reload"] {
 					out.NonTriv = true
 				}
 			}
@@ -259,7 +334,11 @@ func runC09(c C09Case, tolerate bool) *fOutcome {
 			for k := 0; k < s.N; k++ {
 				nonceSeq++
 				nonce := fmt.Sprintf("f%d", nonceSeq)
-				req := buildAuthReq(routes, AuthReq{Route: 0}, now, nonce)
+				a := AuthReq{Route: 0}
+				if s.Mode == "badsig" {
+					a.Muts = []string{"sig-flipbit"}
+				}
+				req := buildAuthReq(routes, a, now, nonce)
 				if f, _ := issue(i, req, now.Unix(), nonce, false); handle(f) {
 					return out
 				}
@@ -267,48 +346,37 @@ func runC09(c C09Case, tolerate bool) *fOutcome {
 			if s.N >= 1000 {
 				out.Labels["flood>=1000"] = true
 			}
+			if s.N >= 9000 {
+				out.Labels["flood>=9000"] = true
+			}
 		case "reload":
-			nr := route
-			switch s.Mode {
-			case "touch":
-				variant = "touch"
-			case "tol-down":
-				if curTol > time.Second {
-					nr.TolS = int(curTol/time.Second) / 2
-					if nr.TolS == 0 {
-						nr.TolS = 1
-					}
-				}
-			case "tol-up", "tol-up3":
-				nr.TolS = int(curTol/time.Second) * 2
-				if s.Mode == "tol-up3" {
-					nr.TolS = int(curTol/time.Second) * 3
-				}
-				out.Labels["tolerance-raised"] = true
-			case "secret":
-				nr.Secrets = append(append([]string(nil), nr.Secrets...), "k-two")
-			}
-			route = nr
-			routes = []AuthRoute{route}
-			if err := os.WriteFile(w.cfgPath, []byte(c09Text(route, variant)), 0o600); err != nil {
-				out.Failure = ffail("HARNESS", "write-config", i, "%v", err)
+			if f := doReload(i, s.Mode); f != nil {
+				out.Failure = f
 				return out
 			}
-			if !w.reload() {
-				out.Failure = ffail("HARNESS", "reload-failed", i, "reload of a valid config failed")
+		case "inflight":
+			nonceSeq++
+			nonce := fmt.Sprintf("i%d", nonceSeq)
+			a := AuthReq{Route: 0, TsOffS: s.TsOffS, Body: []byte(fmt.Sprintf("inflight-%d", nonceSeq))}
+			req := buildAuthReq(routes, a, now, nonce)
+			ts := now.Add(time.Duration(s.TsOffS) * time.Second).Unix()
+			var hf *verifkit.Failure
+			mode := s.Mode
+			tolBefore := curTol
+			midRequest = func() { hf = doReload(i, mode) }
+			f, _ := issue(i, req, ts, nonce, true)
+			if nf, ok := first[nonce]; ok && curTol > tolBefore {
+				nf.raisedInFlight, nf.keepUntil = true, time.Unix(ts, 0).Add(tolBefore)
+				first[nonce] = nf
+			}
+			if hf != nil {
+				out.Failure = hf
 				return out
 			}
-			if nt := route.tol(); nt > curTol {
-				for k, f := range first {
-					if !f.forgotten {
-						f.keepUntil = f.keepUntil.Add(nt - curTol)
-						first[k] = f
-					}
-				}
+			if handle(f) {
+				return out
 			}
-			curTol = route.tol()
-			out.Labels["reload-between"] = true
-			out.Labels["reload-"+s.Mode] = true
+			out.Labels["inflight-across-reload"] = true
 		case "burst":
 			nonceSeq++
 			nonce := fmt.Sprintf("b%d", nonceSeq)
@@ -362,6 +430,37 @@ func runC09(c C09Case, tolerate bool) *fOutcome {
 		out.Labels["some-accepted"] = true
 	}
 	return out
+}
+
+// genC09ManyNonces builds the histories the general generator cannot afford in bulk: thousands of
+// other nonces, all alive at once, between an accepted request and its replay (power-of-two sizes
+// and their neighbours, the usual places for a cache bound), optionally with a reload or a second
+// flood in between.
+func genC09ManyNonces() *rapid.Generator[C09Case] {
+	return rapid.Custom(func(t *rapid.T) C09Case {
+		var c C09Case
+		c.Route = AuthRoute{Kind: "hmac", Secrets: []string{"k-one"}}
+		c.Route.TolS = rapid.SampledFrom([]int{30, 0, 300}).Draw(t, "tol")
+		c.Steps = append(c.Steps, C09Step{K: "send"})
+		if rapid.Bool().Draw(t, "second") {
+			c.Steps = append(c.Steps, C09Step{K: "send", TsOffS: -1})
+		}
+		n := rapid.SampledFrom([]int{1023, 1024, 1025, 2048, 4095, 4096, 4097, 8191, 8192, 8193, 9000, 10000, 16385}).Draw(t, "n")
+		mode := rapid.SampledFrom([]string{"valid", "badsig"}).Draw(t, "mode")
+		c.Steps = append(c.Steps, C09Step{K: "flood", N: n, Mode: mode})
+		switch rapid.IntRange(0, 3).Draw(t, "mid") {
+		case 0:
+			c.Steps = append(c.Steps, C09Step{K: "reload", Mode: rapid.SampledFrom([]string{"same", "touch", "tol-up", "secret"}).Draw(t, "rmode")})
+		case 1:
+			c.Steps = append(c.Steps, C09Step{K: "adv", Ms: rapid.SampledFrom([]int{1, 1000, 20000}).Draw(t, "ms")})
+		}
+		c.Steps = append(c.Steps, C09Step{K: "replay", Ref: 0}, C09Step{K: "replay", Ref: 1})
+		return c
+	})
+}
+
+func TestProp_C09_ManyNonces(t *testing.T) {
+	frontProp(t, "C09", "TestProp_C09_ManyNonces", genC09ManyNonces(), runC09)
 }
 
 func TestProp_C09_Replay(t *testing.T) {
